@@ -1179,7 +1179,7 @@ pub fn is_driver(name: &str) -> bool {
 
 pub fn run(args: &Args) -> Option<Report> {
     sched::install();
-    std::panic::set_hook(Box::new(|_| {}));
+    crate::quiet_panics();
     let quick = args.tier == "quick";
     let nthreads = args.opt_u("threads", 2) as usize;
     let maxlen = args.opt_u("len", if quick { 2 } else { 3 }) as usize;
